@@ -12,4 +12,9 @@ def regen():
         write_if_changed(d / "TypeTables.v", tables.render())
     except Exception as e:  # TranslateError or anything else: fail closed
         errs.append(("TypeTables.v", f"{type(e).__name__}: {e}"))
+    try:  # C12/C13: parser guards, namespaces, section order (+ skeleton checks)
+        from .translate import guards_defs
+        write_if_changed(d / "Guards.v", guards_defs.render())
+    except Exception as e:
+        errs.append(("Guards.v", f"{type(e).__name__}: {e}"))
     return errs
